@@ -302,8 +302,11 @@ PROPS = {
                     "of eval_function_call): a call pushes a mark naming the function and the parameter scope it just opened, and removes exactly "
                     "that mark on every way out; lookups by local id stop at the newest mark of the local's owner, so another activation's instance "
                     "is never read or written: the floor is exactly the base of the newest mark of the local's owner (unit activation_floor, the real "
-                    "local_search_floor with its iterator chain written as the loop it is); the three searches over env[floor..] are NOT under "
-                    "contract (Verus does not accept them and the bounded Kani harness does not terminate; DESIGN 0.5)."),
+                    "local_search_floor with its iterator chain written as the loop it is); the three searches over env[floor..] (lookup_local_env, "
+                    "lookup_local_mut, assign_bound_local) are under contract in the same unit, their iterator chains written as the index "
+                    "loops std defines them to be (R10e-g): the slot they answer with lies at or above that floor, holds the local, and is the "
+                    "newest such slot; None / UndeclaredVariable only when no scope from the floor up holds it.  Their precondition (every "
+                    "mark's base <= env.len()) is the caller-side invariant call_prologue establishes; it is assumed there, not re-proved."),
         "not_covered": ("that resolver ids and the dynamic scope search compose to lexical scoping under recursion (needs an invariant "
                         "relating the activation stack to the scope tree across eval_function_call), argument evaluation order, "
                         "per-block predeclaration, assign/define_bound_local (Value's recursive drop glue explodes in CBMC), function tables (user_call_callee, function_by_body)."),
